@@ -155,3 +155,12 @@ Fixpoint strip_prefix (p l : bytes) : option bytes :=
 Definition show_bool (b : bool) : bytes := if b then bs "1" else bs "0".
 (* result line of every driver:  model TAB spec TAB known *)
 Definition out3 (m s : bytes) (known : bool) : bytes := m ++ tab :: s ++ tab :: show_bool known.
+
+(* linear-time splitting (split_on reverses with the quadratic List.rev; kept for the proofs that use it) *)
+Fixpoint fsplit_on_aux (sep : byte) (l cur : bytes) : list bytes :=
+  match l with
+  | [] => [rev_append cur []]
+  | b :: r => if beqb b sep then rev_append cur [] :: fsplit_on_aux sep r [] else fsplit_on_aux sep r (b :: cur)
+  end.
+Definition fsplit_on (sep : byte) (l : bytes) : list bytes := fsplit_on_aux sep l [].
+Definition ffields (l : bytes) : list bytes := filter (fun f => negb (bytes_eqb f [])) (fsplit_on sp l).
